@@ -34,7 +34,7 @@ impl Prop for C02 {
         tier.pick(150_000, 10_000_000)
     }
     fn rule(&self) -> String {
-        "The C01 tree workload on Dual2 leaves (including leaves with non-zero initial second-order terms). Every node compared with reference AD in value, gradient and full Hessian; at the root additionally: gradient2 read back for the stored list, permutations, subsets and absent names (both code paths), symmetry, Dual::from(Dual2) bit-identity, and agreement with the same tree evaluated on Dual. distinct_nontrivial = distinct tree shapes with at least one operator.".into()
+        "The C01 tree workload on Dual2 leaves (including leaves with non-zero initial second-order terms). Every node compared with reference AD in value, gradient and full Hessian, and its stored Hessian halves D_ij / D_ji must agree (symmetry); at the root additionally: gradient2 read back for the stored list, permutations, subsets and absent names (both code paths), symmetry, Dual::from(Dual2) bit-identity, and agreement with the same tree evaluated on Dual. distinct_nontrivial = distinct tree shapes with at least one operator.".into()
     }
     fn assumptions(&self) -> Vec<String> {
         vec![
@@ -142,11 +142,13 @@ impl Prop for C02 {
                         let want = rr.hd(a, b);
                         let got = m[[i, j]];
                         let sym = m[[j, i]];
-                        if !(crate::util::close_ulps(got, want, 2, 0.0)) || !(crate::util::close_ulps(got, sym, 2, 1e-300) || crate::refad::within(got, sym, 0.0, 1.0)) {
-                            // asymmetry is judged against the reference magnitude below; flag exact read-back errors here
-                            if !crate::util::close_ulps(got, want, 2, 0.0) && !crate::util::close_ulps(got + sym, 2.0 * want, 4, 0.0) {
-                                bad = true;
-                            }
+                        // `want` is the symmetrised stored entry D_ab + D_ba; the matrix handed back must equal it
+                        // in BOTH positions (a symmetric read-back), not merely on average
+                        if !crate::util::close_ulps(got, want, 2, 0.0) && !(got.is_nan() && want.is_nan()) {
+                            bad = true;
+                        }
+                        if !crate::util::close_ulps(got, sym, 2, 0.0) && !(got.is_nan() && sym.is_nan()) {
+                            bad = true;
                         }
                     }
                 }
